@@ -109,7 +109,7 @@ def run(ctx):
         word = lit["v"]
         site = "setIdentifierTokenKind|%s" % word
         st = bf.at_node(c) or frozenset()
-        case_n = [a_.split("=")[1] for a_, p in st if a_.startswith("switch:") and p]
+        case_n = cfg.established_cases(st, [len(word)] + list(range(1, 16)))
         Lv = L.get("v") if L is not None and L.get("k") == "int" else None
         ok = Lv == len(word) and case_n == [str(len(word))]
         if not ok:
